@@ -466,13 +466,17 @@ func (c *control) scanDirBlock(buf []byte, pos int, dirName string, open, close 
 
 func (c *control) dirCase(colon, at bool, params []any) {
 	pos := c.scanDirBlock(c.str, c.pos, "case", '(', ')', false)
+	// The block continues the output of c so that ~& and ~T see the line
+	// so far. The converted text then replaces what the block added.
+	start := len(c.out)
 	c2 := *c
-	c2.out = make([]byte, 0, pos-c.pos)
 	c2.end = pos
 	c2.process()
 
 	c.pos = pos + 2 // past ~)
 	c.argPos = c2.argPos
+	c.out = c2.out[:start]
+	c2.out = append([]byte{}, c2.out[start:]...)
 
 	switch {
 	case colon && at:
@@ -746,6 +750,7 @@ func (c *control) dirProc(colon, at bool, params []any) {
 		scope: c.scope,
 		str:   ctrl,
 		end:   len(ctrl),
+		out:   c.out, // continue the line so that ~& and ~T see the column
 	}
 	if at {
 		c2.args = c.args
@@ -771,7 +776,7 @@ func (c *control) dirProc(colon, at bool, params []any) {
 	} else {
 		c.argPos++
 	}
-	c.out = append(c.out, c2.out...)
+	c.out = c2.out
 }
 
 func (c *control) dirA(colon, at bool, params []any) {
@@ -1583,17 +1588,17 @@ func (c *control) subProcess(str string) {
 		end:    len(str),
 		args:   c.args,
 		argPos: c.argPos,
+		out:    c.out, // continue the line so that ~& and ~T see the column
 	}
 	c2.process()
-	c.out = append(c.out, c2.out...)
+	c.out = c2.out
 	c.argPos = c2.argPos
 }
 
 func (c *control) dirIter(colon, at bool, params []any) {
 	pos := c.scanDirBlock(c.str, c.pos, "iteration", '{', '}', true)
 	start := c.pos
-	c2 := *c
-	c2.out = make([]byte, 0, pos-start)
+	c2 := *c // continues the output of c so that ~& and ~T see the column
 	c2.end = pos
 	var atLeastOnce bool
 	c.pos = pos + 2
@@ -1620,8 +1625,7 @@ func (c *control) dirIter(colon, at bool, params []any) {
 			c2.argPos = 0
 			c2.pos = start
 			c2.process()
-			c.out = append(c.out, c2.out...)
-			c2.out = c2.out[:0]
+			c.out = c2.out
 			atLeastOnce = false
 		}
 	case colon:
@@ -1645,8 +1649,7 @@ func (c *control) dirIter(colon, at bool, params []any) {
 			c2.argPos = 0
 			c2.pos = start
 			c2.process()
-			c.out = append(c.out, c2.out...)
-			c2.out = c2.out[:0]
+			c.out = c2.out
 		}
 	case at:
 		// The iteration arguments are consumed from the format arguments.
@@ -1656,8 +1659,7 @@ func (c *control) dirIter(colon, at bool, params []any) {
 			}
 			c2.pos = start
 			c2.process()
-			c.out = append(c.out, c2.out...)
-			c2.out = c2.out[:0]
+			c.out = c2.out
 			atLeastOnce = false
 		}
 		c.argPos = c2.argPos
@@ -1676,8 +1678,7 @@ func (c *control) dirIter(colon, at bool, params []any) {
 			}
 			c2.pos = start
 			c2.process()
-			c.out = append(c.out, c2.out...)
-			c2.out = c2.out[:0]
+			c.out = c2.out
 			atLeastOnce = false
 		}
 	}
